@@ -11,6 +11,16 @@ func init() {
 		Decides:    "that each specialised opcode the compiler chooses from static types (under IsSubtype(_, Std::Int / Std::Float)) is executed by a handler that reads the operand with the accessors of exactly those representations; otherwise the specialised path reinterprets the operand's bits and disagrees with the generic path.",
 		NotCovered: "equality of results where generic and specialised paths legitimately call different functions; constant folding versus run-time evaluation; statically bound versus dynamically resolved calls.",
 	}
+	props["C05"] = &PropSpec{
+		Rules:      []string{"prec/ladder", "cover/astprint", "cover/astequal"},
+		Decides:    "(a) the printer's precedence table orders the binary/logical operators and operator-like node kinds exactly as the parser's production ladder does (equal within a rung, strictly increasing from rung to rung), so no tree is printed without parentheses the parser needs; (b) every node's String method reads every syntactic field, so two different trees cannot print alike; every node's Equal compares every syntactic field.",
+		NotCovered: "that the concrete text each printer emits is what the parser accepts for that node; type and pattern precedence tables; associativity choices that only produce redundant parentheses.",
+	}
+	props["C31"] = &PropSpec{
+		Rules:      []string{"cover/astsplice", "cover/asttraverse", "effect/selfrec"},
+		Decides:    "that macro expansion cannot lose part of a quoted tree: every node's splice carries every field over and every node's traverse visits every field that can hold a sub-tree; no node method is an unconditional self call.",
+		NotCovered: "capture-freedom under colliding names (scope handling of macro boundaries in checker and compiler); that expansion results are wrapped in macro boundary nodes.",
+	}
 	props["C12"] = &PropSpec{
 		Rules:      []string{"path/savedrestore-checker"},
 		Decides:    "that checker and compiler context (mode, flags, catch scopes, return/throw type, ...) which a function saves, changes and restores is restored on every exit path, and that a function bracketing several fields does not reset a sibling field to a constant instead; a leak is exactly how an unused nested construct (a closure literal, a failed compatibility check) changes the verdict on the code that follows it.",
